@@ -970,9 +970,14 @@ class Folder:
                 return (max if fn == "max" else min)(items)
             except TypeError as ex:
                 raise Undecidable(f"{fn}: {ex}")
-        if fn in ("sorted", "max", "min") and len(args) == 1 and set(kwargs) <= {"key", "reverse"} and isinstance(kwargs.get("key"), FuncVal):
+        _k = kwargs.get("key")
+        _pykey = {"type:int": int, "type:float": float, "type:str": str, "type:tuple": tuple}.get(_k.text) if isinstance(_k, Opaque) else None
+        if fn in ("sorted", "max", "min") and len(args) == 1 and set(kwargs) <= {"key", "reverse"} and (isinstance(_k, FuncVal) or _pykey is not None):
             items = list(args[0].keys()) if isinstance(args[0], dict) else list(args[0])
-            keyed = [(self.call_funcval(kwargs["key"], [x], {}), x) for x in items]
+            try:
+                keyed = [((self.call_funcval(_k, [x], {}) if _pykey is None else _pykey(x)), x) for x in items]
+            except (TypeError, ValueError) as ex:
+                raise Raised(type(ex).__name__, e)
             try:
                 if fn == "sorted":
                     order = sorted(range(len(items)), key=lambda i: keyed[i][0], reverse=bool(kwargs.get("reverse", False)))
